@@ -75,15 +75,15 @@ type gCur struct {
 }
 
 type gScope struct {
-	parent    *gScope
-	boundary  bool // function body: variables, cursors and tables of outer scopes are not used
-	vars      map[string]*gVar
-	curs      map[string]*gCur
-	tabs      map[string]bool
-	funs      map[string]bool
-	sigs      map[string]gSig // signature of funs[name]; missing = one required parameter
-	recFun    string          // body of a recursive function of this name: no local function takes the name (the recursive calls must reach the function itself)
-	hideFun   string          // body of the function being declared under this name: the name is not called from the
+	parent   *gScope
+	boundary bool // function body: variables, cursors and tables of outer scopes are not used
+	vars     map[string]*gVar
+	curs     map[string]*gCur
+	tabs     map[string]bool
+	funs     map[string]bool
+	sigs     map[string]gSig // signature of funs[name]; missing = one required parameter
+	recFun   string          // body of a recursive function of this name: no local function takes the name (the recursive calls must reach the function itself)
+	hideFun  string          // body of the function being declared under this name: the name is not called from the
 	// generated statements (it would resolve to the function itself whatever an outer block declared under it)
 	inLoop    bool
 	inFunc    bool
@@ -223,7 +223,7 @@ func (g *gen) id() int { g.nextID++; return g.nextID }
 func (g *gen) chance(label string, pct int) bool { return fw.Chance(g.t, label, pct) }
 
 // pct: a fair draw (chance is skewed towards true: rapid favours small integers).
-func (g *gen) pct(label string, pct int) bool { return fw.Pct(g.t, label, pct) }
+func (g *gen) pct(label string, pct int) bool    { return fw.Pct(g.t, label, pct) }
 func (g *gen) intn(label string, lo, hi int) int { return rapid.IntRange(lo, hi).Draw(g.t, label) }
 
 func (g *gen) wantError() bool {
